@@ -599,6 +599,11 @@ StepProps(pre, ev, r) ==
     ELSE IF ev.e = "gw" /\ ev.p.t = "PUBLISH" /\ ev.p.qos = 2 /\ pre.alive /\ ~RecvBlocked(pre)
             /\ ~\E q \in outs : q.t = "PUBREC" /\ q.mid = ev.p.mid
         THEN "C06/pubrec-missing"
+    \* C16 (client half): a retransmitted REGISTER (known name, same ID) is accepted again
+    ELSE IF ev.e = "gw" /\ ev.p.t = "REGISTER" /\ pre.alive /\ ~RecvBlocked(pre)
+            /\ ev.p.tl \in DOMAIN pre.reg /\ pre.reg[ev.p.tl] = ev.p.tid
+            /\ ~\E q \in outs : q.t = "REGACK" /\ q.mid = ev.p.mid /\ q.rc = 0
+        THEN "C16/register-retransmit-rejected"
     ELSE "ok"
 
 Step(ev, r) ==
@@ -638,6 +643,7 @@ Prop_C28 == ok \notin {"C28/call-overdue", "C28/goroutines-after-end"}
 Prop_C33 == ok \notin {"C33/no-pingreq-within-keepalive", "C33/keepalive-ping-while-not-active",
                         "C33/api-failed-by-keepalive", "C33/receive-loop-blocked-by-keepalive"}
 Prop_C06 == ok # "C06/pubrec-missing"
+Prop_C16 == ok # "C16/register-retransmit-rejected"
 
 (* type sanity of the state record (also guards the step functions against *)
 (* partial definitions: every CASE must have matched)                      *)
